@@ -280,10 +280,27 @@ def _task(t):
     return incr_task(*t[1:])
 
 
+LATE_RETURN = ('late-return', '형 형 형 형...♥ 흣. 형♡ 형.... 항...?♥ %s 항.' % P65)
+
+
+def pair_sessions(progs):
+    """P1, clear, P2 for every ordered pair: after `clear` the continuation must equal a fresh session"""
+    out = []
+    for n1, t1 in progs:
+        c1 = split_commands(t1)
+        if not c1:
+            continue
+        for n2, t2 in progs:
+            c2 = split_commands(t2)
+            out.append([' '.join(c1), 'clear', ' '.join(c2)])
+            out.append(c1 + ['clear'] + c2)
+    return out
+
+
 def run_c12(tier):
     st = Stats()
     tasks = []
-    progs = [p for p in PROGRAMS] + CROSS
+    progs = [p for p in PROGRAMS] + CROSS + [LATE_RETURN]
     if tier != 'quick':
         progs += [('cross-loop9', loop_program(9) + ' 항.'),
                   ('enc-mid', '%s 항. %s 항.. %s 항. %s 항.' % (P65, P66, big(216, 256), P67))]
@@ -294,6 +311,10 @@ def run_c12(tier):
         info[name] = {'commands': nc, 'sessions': len(ss), 'cuttings': 'all' if nc <= ALL_CUTTINGS_UPTO else '<= 3 cut points'}
         for i in range(0, len(ss), 300):
             tasks.append(('sessions', name, ss[i:i + 300]))
+    ps = pair_sessions(progs)
+    info['pairs-with-clear'] = {'sessions': len(ps)}
+    for i in range(0, len(ps), 60):
+        tasks.append(('sessions', 'pair', ps[i:i + 60]))
     n = 3 if tier == 'quick' else 4
     alpha = A20
     for L in range(0, n + 1):
@@ -308,7 +329,7 @@ def run_c12(tier):
                     tasks.append(('incr', alpha, [a, b], L - 2, ['ab\nc']))
     collect(st, pmap(_task, [(t,) for t in tasks]))
     cov = {
-        'states': sum(v['commands'] for v in info.values()),
+        'states': sum(v.get('commands', 0) for v in info.values()),
         'transitions': st.n.get('transitions', 0),
         'traces_validated_against_impl': st.n.get('sessions', 0) + st.n.get('incr_runs', 0),
         'exhaustive': True,
